@@ -98,6 +98,10 @@ def run_and_report(rep, insts, calls, tag, params, jobs=NPROC, budget=None, desc
 
     calls: dict call_id -> replay dict (fn, regime, prec, args ...); every instance's meta["call"] names its call."""
     t0 = time.time()
+    from concurrent.futures import ThreadPoolExecutor
+    kinds_needed = [k for k in tb_kinds if any(i.kind == k or (k == "R" and i.kind == "RI") for i in insts)]
+    tb_pool = ThreadPoolExecutor(2)
+    tb_fut = {k: tb_pool.submit(cert.trusted_base, k) for k in kinds_needed}     # Print Assumptions runs alongside
     res = cert.certify(insts, tactic_params=params, jobs=jobs, timeout=budget, tag=tag)
     V = res["verdicts"]
     by_id = {i.id: i for i in insts}
@@ -135,9 +139,9 @@ def run_and_report(rep, insts, calls, tag, params, jobs=NPROC, budget=None, desc
         h = hist.setdefault(k, {"pass": 0, "fail": 0, "inconclusive": 0})
         h[V[ins.id]["verdict"]] += 1
     tb = []
-    for k in tb_kinds:
-        if any(i.kind == k or (k == "R" and i.kind == "RI") for i in insts):
-            tb += ["[%s] %s" % (k, s) for s in cert.trusted_base(k)]
+    for k in kinds_needed:
+        tb += ["[%s] %s" % (k, s) for s in tb_fut[k].result()]
+    tb_pool.shutdown()
     cov = {
         "evaluations": len(calls),
         "coq_lemmas": len(insts),
@@ -159,6 +163,8 @@ def run_and_report(rep, insts, calls, tag, params, jobs=NPROC, budget=None, desc
         "checker_cmd": cert.summarize_cmds(res["cmds"]),
         "trusted_base": tb,
         "cert_dir": res["dir"], "cert_wall_s": res["wall_s"],
+        "slowest": [{"id": i, "secs": V[i]["secs"], "i_prec": V[i]["prec"], "step": V[i]["step"]}
+                    for i in sorted(V, key=lambda k: -V[k]["secs"])[:5]],
     }
     if extra_cov:
         cov.update(extra_cov)
